@@ -59,7 +59,8 @@ Eq(a, b) ==
     [] a.t = "map" -> /\ Len(a.v) = Len(b.v)
                       /\ \A i \in 1..Len(a.v) : \E j \in 1..Len(b.v) : Eq(a.v[i][1], b.v[j][1]) /\ Eq(a.v[i][2], b.v[j][2])
     [] OTHER -> FALSE
-Lt(a, b) == Cmp3(a, b) < 0
+IsNaN(v) == v.t = "double" /\ v.c = "nan"
+Lt(a, b) == ~IsNaN(a) /\ ~IsNaN(b) /\ Cmp3(a, b) < 0            \* every ordering with a NaN is false (IEEE-754)
 
 \* homogeneous: every pair of corresponding leaves has the same type, so Eq is definite (CEL leaves [1] == ["a"] open)
 RECURSIVE SameShape(_,_)
